@@ -11,8 +11,9 @@ const (
 	nPair   = 10 * 10 * 4   // break-after × break-before × nesting variant
 	nDeco   = 8 * 4 * 22    // block arrangement × border/padding split × page height
 	nTables = nOW + nPair + nDeco
-	nUnit   = 16 * 10 * 3       // margin/padding form × unit × sheet shape; these cases come last (after the random ones)
-	nDim    = 3 * 4 * 5 * 5 * 2 // declared axis × spelling of the dimension × first margin × second margin × sheet; after the unit table
+	nUnit   = 16 * 10 * 3           // margin/padding form × unit × sheet shape; these cases come last (after the random ones)
+	nBlank  = 4 * 2 * 2 * 2 * 4 * 6 // side value × pages before × root direction × carrier of the break × page names × @page rule set; after the dim table
+	nDim    = 3 * 4 * 5 * 5 * 2     // declared axis × spelling of the dimension × first margin × second margin × sheet; after the unit table
 )
 
 func nRandom(tier string) int {
@@ -32,6 +33,8 @@ func genCase(r *rand.Rand, i int, tier string) any {
 		return genPair(i - nOW)
 	case i < nTables:
 		return genDeco(i - nOW - nPair)
+	case i >= nTables+nRandom(tier)+nUnit+nDim:
+		return genBlank(i - nTables - nRandom(tier) - nUnit - nDim)
 	case i >= nTables+nRandom(tier)+nUnit:
 		return genDim(i - nTables - nRandom(tier) - nUnit)
 	case i >= nTables+nRandom(tier):
@@ -254,6 +257,57 @@ func genDim(j int) In {
 	}
 	for k := 0; k < 10; k++ {
 		in.Items = append(in.Items, Item{Kind: "leaf", ID: fmt.Sprintf("u%d", k), H: 50})
+	}
+	in.buildDoc(noLegacy)
+	return in
+}
+
+// genBlank: blank pages × named pages × :blank / :left / :right rules.  One or two pages of 60px
+// blocks (one block per page), then a break to a side (left, right, recto, verso; carried by
+// break-before of the next block or break-after of the previous one) that needs a blank page in half
+// of the cases (the root is ltr or rtl: the first page is a right or a left page), then two more
+// blocks.  The blocks before / after the break have the page names (none, a), (b, a), (a, none),
+// (a, a); the @page rules give the named pages, the blank pages and the sides visibly different sizes,
+// margins, paddings and margin boxes — among them `a:blank`, which no page can match since a blank
+// page has no name.
+func genBlank(j int) In {
+	sv := []string{"left", "right", "recto", "verso"}[j%4]
+	nBefore := 1 + (j/4)%2
+	rtl := (j/8)%2 == 1
+	after := (j/16)%2 == 1
+	names := [][2]string{{"", "a"}, {"b", "a"}, {"a", ""}, {"a", "a"}}[(j/32)%4]
+	rs := j / 128
+	in := In{Kind: "blank-table", FS: 10, RTL: rtl}
+	au := func(name string, blank bool, side string, ds ...Decl) Rule {
+		return Rule{Origin: "author", Name: name, Blank: blank, Side: side, Decls: ds}
+	}
+	in.Rules = []Rule{au("", false, "", Decl{P: "size", V: []int{200, 140}}, Decl{P: "margin", V: []int{20}}, Decl{P: "mbox", V: []int{0}})}
+	switch rs {
+	case 0:
+		in.Rules = append(in.Rules, au("a", false, "", Decl{P: "margin", V: []int{8}}, Decl{P: "size", V: []int{240, 140}}))
+	case 1:
+		in.Rules = append(in.Rules, au("a", false, "", Decl{P: "margin-top", V: []int{4}}), au("", true, "", Decl{P: "margin-left", V: []int{12}}, Decl{P: "mbox", V: []int{1}}))
+	case 2:
+		in.Rules = append(in.Rules, au("a", false, "left", Decl{P: "margin", V: []int{4}}), au("a", false, "right", Decl{P: "margin", V: []int{12}}), au("b", false, "", Decl{P: "padding", V: []int{4}}))
+	case 3:
+		in.Rules = append(in.Rules, au("a", true, "", Decl{P: "margin", V: []int{28}}), au("", true, "", Decl{P: "padding-top", V: []int{8}}))
+	case 4:
+		in.Rules = append(in.Rules, au("a", false, "", Decl{P: "mbox", V: []int{2}}, Decl{P: "padding-top", V: []int{8}}), au("b", false, "", Decl{P: "margin", V: []int{12}}))
+	case 5:
+		in.Rules = append(in.Rules, au("", true, "", Decl{P: "size", V: []int{160, 140}}), au("a", false, "", Decl{P: "size", V: []int{240, 140}, Imp: true}, Decl{P: "margin-bottom", V: []int{12}}))
+	}
+	for k := 0; k < nBefore+2; k++ {
+		it := Item{Kind: "leaf", ID: fmt.Sprintf("u%d", k), H: 60, Page: names[0]}
+		if k >= nBefore {
+			it.Page = names[1]
+		}
+		if k == nBefore && !after {
+			it.BB = sv
+		}
+		if k == nBefore-1 && after {
+			it.BA = sv
+		}
+		in.Items = append(in.Items, it)
 	}
 	in.buildDoc(noLegacy)
 	return in
